@@ -54,7 +54,8 @@ class NormalizationLayer(Model):
         # compute width and center
         diag = []
         bias = []
-        for i in range(domain.dim):
+        # every axis of the space (a boundary has domain.dim = space.dim - 1)
+        for i in range(domain.space.dim):
             diag.append(maxs[i] - mins[i])
             bias.append((maxs[i] + mins[i]) / 2)
 
